@@ -85,7 +85,7 @@ func (lw *leafWrapper) w2(s sdf.SDF2) sdf.SDF2 {
 	return &leaf2{inner: s, id: lw.n}
 }
 
-var model3Names = []string{"sphere-box", "csg", "extrude-poly", "screw", "extrude-bezier", "cache-extrude", "revolve", "array", "extrude-union2d", "multi-intersect", "cache-extrude-rot"}
+var model3Names = []string{"sphere-box", "csg", "extrude-poly", "screw", "extrude-bezier", "cache-extrude", "revolve", "array", "extrude-union2d", "multi-intersect", "cache-extrude-rot", "cube"}
 
 // models that also exist in a second state reached through a setter
 var model3Variants = []string{"sphere-box+blend", "extrude-poly+twist"}
@@ -167,6 +167,8 @@ func buildModel3(name string, lw *leafWrapper) sdf.SDF3 {
 		far := lw.w2(circle(1, 3.2, -5))
 		tiny := lw.w2(circle(0.2, 0, -6.2))
 		return sdf.Extrude3D(sdf.Union2D(big, near, far, tiny), 18)
+	case "cube":
+		return lw.w3(must3(sdf.Box3D(v3.Vec{X: 10, Y: 10, Z: 10}, 0)))
 	case "cache-extrude-rot":
 		// a cached profile, extruded and turned by a quarter: after the rotation the
 		// 2D points the cache sees for one (x,z) column differ only in their last bits
